@@ -17,9 +17,9 @@ try:
         d = os.path.join(VERIF, "seeded", n)
         meta = json.load(open(os.path.join(d, "meta.json")))
         prop = meta["property"]
-        repo = os.path.join(scratch, "repo")
-        shutil.rmtree(repo, ignore_errors=True)
+        repo = os.path.join(scratch, "repo-" + n)      # one directory per seed: cargo's mtime-based freshness must not see a stale proc-macro
         subprocess.check_call(["rsync", "-a", "--exclude", "target", "--exclude", ".git", "/repo/", repo + "/"])
+        subprocess.check_call("find . -name '*.rs' -o -name '*.toml' | xargs touch", shell=True, cwd=repo)
         r = subprocess.run(["patch", "-p1", "-s", "-i", os.path.join(d, "patch.diff")], cwd=repo, stdout=subprocess.PIPE, stderr=subprocess.STDOUT, text=True)
         if r.returncode != 0:
             print("PATCH-FAILED %s: %s" % (n, r.stdout[-200:]))
@@ -31,6 +31,7 @@ try:
         print("%s %-58s %s -> %s" % ("caught" if ok else "MISSED", n, prop, ",".join(rules)))
         if not ok:
             missed.append(n)
+        shutil.rmtree(repo, ignore_errors=True)
 finally:
     shutil.rmtree(os.path.join(VERIF, "evidence"))
     shutil.copytree(bk, os.path.join(VERIF, "evidence"))
